@@ -70,10 +70,10 @@ def cmp(x,y):
             return c
         else:
             return cmparr(xv, yv)
-    if isinstance(x, float) and x != x: ## nan ranks with +inf, above every finite number; -inf stays the smallest
-        x = np.inf
-    if isinstance(y, float) and y != y:
-        y = np.inf
+    xnan = isinstance(x, float) and x != x ## nan ranks above every other number (including +inf) and equals itself
+    ynan = isinstance(y, float) and y != y
+    if xnan or ynan:
+        return 0 if xnan and ynan else 1 if xnan else -1
     if is_iterable(x):
         return cmparr(x,y)
     else:
